@@ -237,6 +237,7 @@ fn address__length(addr: &Address) -> (r: usize)
     ensures
         //#C14 C02
         repr(*addr) ==> r == enc5(absaddr(*addr)).len(),
+        repr(*addr) ==> r <= 259,
 {
     proof { lemma_be_bytes_len(0, 2); match absaddr(*addr) { AddrV::Dom(n, p) => lemma_be_bytes_len(p as nat, 2), AddrV::V4(o, p) => lemma_be_bytes_len(p as nat, 2), AddrV::V6(o, p) => lemma_be_bytes_len(p as nat, 2) } }
     match addr {
